@@ -26,8 +26,8 @@ def run(tier, seed, replay=None):
     rnd = random.Random(seed)
 
     # 1. design-level model checking + case emission
-    cfgs = ["Gen_Loader2.cfg", "Gen_Loader3.cfg", "Gen_Loader3S.cfg"] if tier == "quick" else \
-           ["Gen_Loader2.cfg", "Gen_Loader3.cfg", "Gen_Loader3S.cfg", "Gen_Loader3O.cfg", "Gen_Loader4S.cfg"]
+    cfgs = ["Gen_Loader2.cfg", "Gen_Loader3.cfg", "Gen_Loader3S.cfg", "Gen_Loader3MS.cfg"] if tier == "quick" else \
+           ["Gen_Loader2.cfg", "Gen_Loader3.cfg", "Gen_Loader3S.cfg", "Gen_Loader3MS.cfg", "Gen_Loader3M.cfg", "Gen_Loader3O.cfg", "Gen_Loader4S.cfg"]
     cases = []
     states = trans = 0
     for cfg in cfgs:
@@ -35,8 +35,9 @@ def run(tier, seed, replay=None):
         kw = {}
         if cfg == "Gen_Loader4S.cfg":
             kw = dict(simulate="num=750", depth=100, seed=seed)       # num is per worker
-        if cfg == "Gen_Loader3S.cfg":                                 # random interleavings
-            kw = dict(simulate="num=%d" % (100 if tier == "quick" else 1500), depth=80, seed=seed)
+        if cfg in ("Gen_Loader3S.cfg", "Gen_Loader3MS.cfg"):          # random interleavings (MS: some modules have no file)
+            n = (100 if cfg == "Gen_Loader3S.cfg" else 40) if tier == "quick" else 1500
+            kw = dict(simulate="num=%d" % n, depth=80, seed=seed)
         r = tlc.require_ok(tlc.run(env.tmpdir("tlc"), "MC_Loader", cfg, ["loader"], workers=4 if kw else 16,
                                    timeout=3000, **kw), cfg)
         if r["violated"]:
@@ -56,7 +57,7 @@ def run(tier, seed, replay=None):
     if tier == "quick" and not replay:
         keep = []
         for c in cases:
-            if c["cfg"] in ("Gen_Loader2.cfg", "Gen_Loader3S.cfg") or rnd.random() < 0.5:
+            if c["cfg"] in ("Gen_Loader2.cfg", "Gen_Loader3S.cfg", "Gen_Loader3MS.cfg") or rnd.random() < 0.5:
                 keep.append(c)
         cases = keep
     if not cases:
@@ -88,7 +89,7 @@ def run(tier, seed, replay=None):
             o["sched_done"] = any(e["ev"] == "SchedDone" for e in evs)
             res[mode] = o
         # acyclic: also run the program natively (with std/io) to see the dependencies' symbols
-        if not c["hasCycle"] and not random_sched:
+        if not c["hasCycle"] and not random_sched and not (set(c.get("missing", [])) & set(c.get("live", []))):
             d2 = env.tmpdir("c15r")
             entry2, expect = loader.render_project(c, d2, with_io=True)
             tr = os.path.join(d2, "run.ndjson")
@@ -127,7 +128,7 @@ def run(tier, seed, replay=None):
                 trace_owner.append((c, mode))
             elif o["cls"] not in ("CRASH", "HANG"):
                 raise core.Undecided("no trace recorded for a run; hooks missing?")
-        if not c["hasCycle"] and "run" in res and res["run"]["cls"] == "ACCEPT":
+        if "run" in res and res["run"]["cls"] == "ACCEPT":
             r = res["run"]["run"]
             if r["cls"] != "EXIT0" or r["out"].strip() != res["run"]["expect"]:
                 chk.fail(key + "|run-output", "acyclic project built but printed %r (exit %s), expected %s: a "
@@ -180,6 +181,13 @@ def verdict_problem(c, o):
             return "project with an import cycle was not rejected (class %s)" % o["cls"]
         if "circular import" not in o["text"]:
             return "cyclic project rejected without a circular-import diagnostic"
+        return None
+    gone = sorted(set(c.get("missing", [])) & set(c.get("live", [])))
+    if gone:                     # a reachable import has no source file: a failure that names it, never a build
+        if o["cls"] != "REJECT":
+            return "project importing a module without a file was not rejected (class %s)" % o["cls"]
+        if not all(any("module not found: " + m in e["msg"] for e in o["errors"]) for m in gone):
+            return "missing modules %s are not all reported: %s" % (gone, [e["msg"] for e in o["errors"]][:4])
         return None
     if o["cls"] != "ACCEPT":
         return "acyclic project did not build: %s %s" % (o["cls"], [e["msg"] for e in o["errors"]][:3])
